@@ -140,6 +140,21 @@ CLAIMED['C15'] = ('5/C15',
     'multipart uploads with CRC32C/CRC64NVME full-object checksums are skipped (need awscrt); '
     'kwargs captured before botocore rewrites them')
 
+CLAIMED['C19'] = ('5/C19',
+    'TLC model checking of ProcessPool.tla (safety + liveness) and TLC trace validation '
+    '(ProcessPool_Trace.tla) of the real submitter/worker/monitor code run in-process under '
+    'the deterministic scheduler',
+    'ProcessPool.tla models the cross-process protocol with every monitor call, queue '
+    'operation, size request, allocate, job, rename and remove as its own action; TLC checks '
+    'done-only-after-all-jobs, file-in-place-or-temp-removed, destination-never-partial, '
+    'shutdown-waits and (under fairness) every-download-eventually-done for 1-3 workers, 1-2 '
+    'downloads, 1-4 jobs, one fault, cancel and Ctrl-C. The real loops, TransferMonitor, '
+    'future and ProcessPoolDownloader wiring run as cooperative threads; every event of a run '
+    'must be the spec action of that thread with the logged values, the real directory must '
+    'agree with the spec file system, and the C19 clauses are invariants of the trace spec.',
+    'no real OS processes / pickling / multiprocessing manager; each monitor call atomic; '
+    'zero-size objects excluded (allocate(…, 0) fails on Linux)')
+
 REASON_TODO = 'check not built yet (build in progress)'
 
 
